@@ -186,15 +186,20 @@ pub fn install_panic_hook() {
         } else {
             "<non-string panic payload>".into()
         };
+        let repo_prefix = std::env::var("GXV_REPO_PREFIX").unwrap_or_else(|_| "/repo/".to_string());
         let mut site = loc.clone();
-        let mut in_repo = loc.starts_with("/repo/");
+        let mut in_repo = loc.starts_with(&repo_prefix);
         if !in_repo && !loc.contains("gxv/src") {
-            // std location (non-track_caller): find the first /repo frame
+            // std location (non-track_caller): find the innermost frame in the repository (or, failing that,
+            // in a monitor). Frames of the framework itself (this hook) are skipped.
             let bt = std::backtrace::Backtrace::force_capture().to_string();
             for line in bt.lines() {
                 let l = line.trim();
                 if let Some(rest) = l.strip_prefix("at ") {
-                    if rest.starts_with("/repo/") {
+                    if rest.contains("gxv/src/fw/") {
+                        continue;
+                    }
+                    if rest.starts_with(&repo_prefix) {
                         // at /repo/x/y.rs:12:5
                         let mut parts = rest.rsplitn(2, ':');
                         let _col = parts.next();
@@ -211,8 +216,9 @@ pub fn install_panic_hook() {
                 }
             }
         }
+        let site = site.strip_prefix(repo_prefix.as_str()).map(str::to_string).unwrap_or(site);
         let pi = PanicInfo {
-            site: strip_repo(&site),
+            site,
             raw_location: loc,
             message: msg.chars().take(300).collect(),
             in_repo,
